@@ -138,6 +138,9 @@ class Sharing:
         if k == 'un' and e['op'] in ('++', '--'):
             return self.owned_expr(e['e'], depth + 1)
         if k == 'idx':
+            ai = self.alias_init(unwrap(e['b']))
+            if ai is not None:
+                e = dict(e, b=ai)      # loc_ord[r] with `auto &loc_ord = ord[tid]` is ord[tid][r]
             # ptr[i] with owned i: start of an owned row; ord[tid][r] etc.
             inner = self.owned_expr(e['x'], depth + 1)
             if inner and self.injective_map(e['b']):
@@ -159,13 +162,32 @@ class Sharing:
             return None
         return None
 
+    def alias_init(self, b):
+        """the initialiser of a reference local declared inside the region (`const std::vector<T> &loc = ord[tid];`), else None"""
+        if b is None or b['k'] != 'ref' or b['d'] not in self.private:
+            return None
+        if not self.f.decl(b['d']).get('ref'):
+            return None
+        for n in walk(self.r.node):
+            if n['k'] == 'decl':
+                for v in n['v']:
+                    if v['d'] == b['d'] and v.get('init') is not None:
+                        return unwrap(v['init'])
+        return None
+
     def injective_map(self, base):
         """is `base` an array whose element at an owned position identifies thread-exclusive data?
         row-pointer arrays (monotone offsets: disjoint ranges), permutations / row orders, per-thread storage.
         Column-index and value arrays are NOT (two rows may hold the same column)."""
         b = unwrap(base)
         name = None
+        hops = 0
         while b is not None:
+            ai = self.alias_init(b) if hops < 6 else None
+            if ai is not None:
+                b = ai          # a reference local stands for the object it is bound to
+                hops += 1
+                continue
             if b['k'] in ('mem', 'ref'):
                 name = b['n']
                 break
